@@ -1422,6 +1422,7 @@ class Processor:
                     matches = Searches.search_matches(method, term, ele[attr])
                 else:
                     # Attempt a descendant search
+                    matches = False
                     next_translated_path = translated_path + "[{}]".format(
                         lstidx)
                     next_ancestry = ancestry + [(data, lstidx)]
@@ -2007,6 +2008,7 @@ class Processor:
                 yield NodeCoords(
                     data, parent, parentref, translated_path, ancestry,
                     peekseg)
+                break  # one match suffices; the caller re-applies the segment
 
             # Then, recurse into each child to perform the same test.
             if isinstance(data, dict):
